@@ -12,6 +12,7 @@ import (
 	"runtime"
 	"runtime/pprof"
 	"sort"
+	"strconv"
 	"strings"
 	"sync"
 	"time"
@@ -395,6 +396,9 @@ func Explore(r *ev.Run, scs []*Scenario, cfg Config) *Summary {
 	}
 	if cfg.Wall == 0 {
 		cfg.Wall = 10 * time.Minute
+	}
+	if v, err := strconv.Atoi(os.Getenv("VERIF_WALL_S")); err == nil && v > 0 {
+		cfg.Wall = time.Duration(v) * time.Second // measurement runs only (sizing of tiers)
 	}
 	if cfg.Workers == 0 {
 		cfg.Workers = runtime.NumCPU()
